@@ -3,6 +3,7 @@ import FsutilModel.Model.WalkB
 import FsutilModel.WalkBuild
 import FsutilModel.ByteOrd
 import FsutilModel.WalkComplete
+import FsutilModel.WalkSound
 /-! # C09 — Walk lists every entry once, parents first, in protocol path order -/
 namespace Fsm.C09
 
@@ -52,6 +53,13 @@ them. Together with `walk_order_lists_once` and `walk_order_ascending`: each exa
 theorem walk_lists_every_entry (paths : List Path) (h : ∀ p ∈ paths, ∀ c ∈ comps p, NameOK c) (x : Path)
     (hx : x ∈ paths) : x ∈ walk [] (buildTree paths) :=
   buildTree_lists paths h x hx
+
+/-- Nothing is invented: everything the walk of the tree built from a snapshot lists is a path of the
+snapshot or a directory above one (`p = x/…`). With `walk_lists_every_entry`: for a parent-closed
+snapshot the walk lists exactly its paths. -/
+theorem walk_lists_only_entries (paths : List Path) (h : ∀ p ∈ paths, ∀ c ∈ comps p, NameOK c) (x : Path)
+    (hx : x ∈ walk [] (buildTree paths)) : ∃ p ∈ paths, x = p ∨ ∃ r, p = x ++ sep :: r :=
+  buildTree_sound paths h x hx
 
 /-- non-vacuity: the tree a/{b}, "a b", "a-b" is well-formed and walks as a, a/b, a b, a-b -/
 example : walk [] (.dir [([97], .dir [([98], .file)]), ([97, 32, 98], .file), ([97, 45, 98], .file)])
